@@ -12,9 +12,9 @@ def run(prog, rep):
         "dominance with nothing moving the cursor in between; repoint-later-slots and shift-loop: the loops cover the "
         "whole tail of the table unconditionally; initial-layout: Tdf.new's slots point at HDR + N*ENT."
     )
-    M.offset_provenance(ct, rep)
-    M.tail_move(ct, rep)
-    M.repoint_later(ct, rep)
-    M.shift_loop(ct, rep)
-    M.initial_layout(ct, rep)
+    rep.attempt(lambda: M.offset_provenance(ct, rep))
+    rep.attempt(lambda: M.tail_move(ct, rep))
+    rep.attempt(lambda: M.repoint_later(ct, rep))
+    rep.attempt(lambda: M.shift_loop(ct, rep))
+    rep.attempt(lambda: M.initial_layout(ct, rep))
     rep.not_decided += ["the arithmetic identity file length = header + table + sum of sizes over concrete histories"]
